@@ -1,7 +1,7 @@
 mod false_or_nil_type;
 
 use crate::{
-    DbIndex, LuaInstanceType, LuaIntersectionType, LuaType, TypeOps, get_real_type,
+    DbIndex, LuaInstanceType, LuaIntersectionType, LuaType, LuaTypeDeclId, TypeOps, get_real_type,
     semantic::type_check::is_sub_type_of,
 };
 pub use false_or_nil_type::{narrow_false_or_nil, remove_false_or_nil};
@@ -23,6 +23,18 @@ pub fn narrow_down_type(
     source: LuaType,
     target: LuaType,
     declared: Option<LuaType>,
+) -> Option<LuaType> {
+    narrow_down_type_inner(db, source, target, declared, &mut Vec::new())
+}
+
+/// `expanding`: the aliases whose origin union is being walked. A recursive alias
+/// (`---@alias R "a" | R`) contains itself; the repeated occurrence contributes nothing new.
+fn narrow_down_type_inner(
+    db: &DbIndex,
+    source: LuaType,
+    target: LuaType,
+    declared: Option<LuaType>,
+    expanding: &mut Vec<LuaTypeDeclId>,
 ) -> Option<LuaType> {
     if source == target {
         return Some(source);
@@ -192,7 +204,7 @@ pub fn narrow_down_type(
             _ => {}
         },
         LuaType::Instance(base) => {
-            return narrow_down_type(db, source, base.get_base().clone(), declared);
+            return narrow_down_type_inner(db, source, base.get_base().clone(), declared, expanding);
         }
         LuaType::BooleanConst(_) => {
             if real_source_ref.is_boolean() {
@@ -205,7 +217,9 @@ pub fn narrow_down_type(
             let source_types = target_u
                 .into_vec()
                 .into_iter()
-                .filter_map(|t| narrow_down_type(db, real_source_ref.clone(), t, declared.clone()))
+                .filter_map(|t| {
+                    narrow_down_type_inner(db, real_source_ref.clone(), t, declared.clone(), expanding)
+                })
                 .collect::<Vec<_>>();
             if source_types.is_empty() {
                 return None;
@@ -227,11 +241,26 @@ pub fn narrow_down_type(
 
     match real_source_ref {
         LuaType::Union(union) => {
+            let alias_id = match &source {
+                LuaType::Ref(id) => Some(id.clone()),
+                _ => None,
+            };
+            if let Some(id) = &alias_id {
+                if expanding.contains(id) {
+                    return None;
+                }
+                expanding.push(id.clone());
+            }
             let union_types = union
                 .into_vec()
                 .into_iter()
-                .filter_map(|t| narrow_down_type(db, t, target.clone(), declared.clone()))
+                .filter_map(|t| {
+                    narrow_down_type_inner(db, t, target.clone(), declared.clone(), expanding)
+                })
                 .collect::<Vec<_>>();
+            if alias_id.is_some() {
+                expanding.pop();
+            }
 
             return (!union_types.is_empty()).then_some(LuaType::from_vec(union_types));
         }
@@ -240,7 +269,7 @@ pub fn narrow_down_type(
                 .get_unions()
                 .iter()
                 .filter_map(|(ty, _)| {
-                    narrow_down_type(db, ty.clone(), target.clone(), declared.clone())
+                    narrow_down_type_inner(db, ty.clone(), target.clone(), declared.clone(), expanding)
                 })
                 .collect::<Vec<_>>();
 
